@@ -235,6 +235,38 @@ def run(res):
             if f == to_obj(t, L):
                 viol.append(('a formula given new operands still == its old tree', M, t, u))
             del keyed, h0
+        # history: a compound formula is hashed / used as a key, then one of its DESCENDANT atoms is re-initialised with
+        # another name: the ancestor must now be == to (and hash like) a fresh formula with the new leaf, not the old one
+        for t, _ in (nonleaf if len(nonleaf) < 40 else rng.sample(nonleaf, 40)):
+            f = to_obj(t, L)
+            leaves = [x for x in nodes_of(f, []) if type(x).__name__ == 'AtomicProposition']
+            if not leaves:
+                continue
+            hash(f)
+            _k = {f: 1}
+            victim = rng.choice(leaves)
+            oldname = victim.name
+            try:
+                victim.__init__('zz_renamed')
+            except Exception as e:
+                viol.append(('re-initialising an atom raised %s' % type(e).__name__, M, t, None))
+                continue
+
+            def ren(x):
+                if x in ('tt', 'ff'):
+                    return x
+                if x[0] == 'ap':
+                    return x
+                return (x[0],) + tuple(ren(c) for c in x[1:])
+            t_new = from_obj(f)
+            g = to_obj(t_new, L)
+            if t_new == t:
+                viol.append(('re-initialising a descendant atom did not change the tree', M, t, t_new))
+            elif not (f == g and g == f) or hash(f) != hash(g) or g not in {f}:
+                viol.append(('after a descendant atom (%s) was re-initialised, the formula is not an equal key to a fresh '
+                             'formula with the same tree (== %r/%r, same hash %r)' % (oldname, f == g, g == f, hash(f) == hash(g)), M, t_new, t_new))
+            elif f == to_obj(t, L):
+                viol.append(('after a descendant atom (%s) was re-initialised, the formula still == its old tree' % oldname, M, t, t_new))
         # Bool against Python bool, both directions
         for bval in (True, False):
             B = L.Bool(bval)
